@@ -167,6 +167,8 @@ def run_rows(pid, spec, prefixes, ctxs=CTXS_DEFAULT, regs_fn=None, prep_kw=None,
             ls.bump('addresses_solved_' + desc.get('address_solved', 'not'))
         if rng.random() < (0.6 if (row.sem or '').split(':')[0] in SYSTEM_SEMS else 0.3):
             control_noise(ctx, rng, desc)
+        if rng.random() < 0.4:
+            fault_history(ctx, rng, desc)
         if mode == 'mon' and rng.random() < 0.45:
             ctx.cpu.registers.scr.ns = 1      # Monitor mode with SCR.NS = 1 (as set before a return to Non-secure state)
             desc['ns'] = 1
@@ -220,6 +222,18 @@ def control_noise(ctx, rng, desc):
                                  mvbar='%#x' % r.mvbar, hvbar='%#x' % r.hvbar, hsctlr='%#x' % r.hsctlr.value, hcr='%#x' % r.hcr.value)
 
 
+def fault_history(ctx, rng, desc):
+    """the fault status / address registers as an earlier abort on the same processor left them (status, domain, WnR; both
+    address registers): what the next abort reports must not depend on them"""
+    r = ctx.cpu.registers
+    fs = rng.choice([0b00001, 0b01101, 0b00101, 0b00111, 0b01001, 0b01011, 0b01111, 0b00011, 0b00110, 0b00010, 0b01000])
+    r.dfsr.value = (rng.getrandbits(1) << 11) | ((fs >> 4) << 10) | (rng.getrandbits(4) << 4) | (fs & 0xF)
+    r.dfar = rng.getrandbits(32)
+    r.ifsr = rng.choice([0b00001, 0b01101, 0b00101, 0b00010])
+    r.ifar = rng.getrandbits(32)
+    desc['fault_history'] = dict(dfsr='%#x' % r.dfsr.value, dfar='%#x' % r.dfar, ifsr='%#x' % r.ifsr, ifar='%#x' % r.ifar)
+
+
 def replay_rows(pid, data):
     from vf import lockstep, scen
     rp = data['replay']
@@ -231,7 +245,7 @@ def replay_rows(pid, data):
                  sp_low=int(rp['regs'][13], 16) & 3)
     ctx.cpu.registers.cpsr.value = int(rp['cpsr'], 16)
     r = ctx.cpu.registers
-    for k_, v in (rp.get('control_noise') or {}).items():
+    for k_, v in list((rp.get('control_noise') or {}).items()) + list((rp.get('fault_history') or {}).items()):
         reg = getattr(r, k_)
         if hasattr(reg, 'value'):
             reg.value = int(v, 16)
